@@ -332,3 +332,114 @@ def esbfs(build: Callable, params: dict, *, max_states: int | None = None,
                     g.samples.append({"history": list(hist) + [c], "last": _jsonable(labels0[c]), "state": repr(k)[:200]})
     g.states = len(seen)
     return g
+
+
+# --- parallel, level-synchronous explicit-state search -------------------------
+
+def canon_digest(k) -> str:
+    return hashlib.sha1(repr(k).encode()).hexdigest()
+
+
+def _expand(args):
+    """Worker: replay ``hist`` on a fresh world and take every enabled choice once (each on
+    its own fresh replay; the first child continues on the replayed world)."""
+    build_ref, params, hist = args
+    try:
+        import importlib
+
+        build = getattr(importlib.import_module(build_ref[0]), build_ref[1])
+
+        def replay():
+            w = build(params)
+            for c in hist:
+                en = w.enabled()
+                if c >= len(en):
+                    w.close()
+                    raise InternalError(f"ES-BFS replay diverged at {hist}: choice {c} of {len(en)}")
+                w.apply(c)
+            return w
+
+        w = replay()
+        en0 = w.enabled()
+        labels0 = [e[0] for e in en0]
+        out = []
+        for c in range(len(en0)):
+            if c > 0:
+                w = replay()
+                labels = [e[0] for e in w.enabled()]
+                if labels != labels0:
+                    w.close()
+                    raise InternalError(f"nondeterministic enabled set at {hist}: {labels0} vs {labels}")
+            w.apply(c)
+            viol = list(w.step_violations())
+            done = w.done()
+            if done:
+                viol += list(w.finish())
+            sig = w.signature() if done and hasattr(w, "signature") else None
+            out.append((c, labels0[c], canon_digest(w.canon()), viol, done, sig))
+            w.close()
+        return ("ok", hist, out)
+    except InternalError as e:
+        return ("internal", hist, f"{e}\n{traceback.format_exc()}")
+    except Exception as e:
+        return ("internal", hist, f"{type(e).__name__}: {e}\n{traceback.format_exc()}")
+
+
+def esbfs_par(build_ref: tuple[str, str], params: dict, *, max_states: int | None = None,
+              max_depth: int | None = None, budget_s: float | None = None, parallel: bool = True) -> Graph:
+    """Level-synchronous BFS over canonical states; the frontier of each level is expanded by the
+    worker pool.  Violating and done states are not expanded.  Deterministic for any worker count
+    (results are processed in history order)."""
+    import importlib
+
+    build = getattr(importlib.import_module(build_ref[0]), build_ref[1])
+    g = Graph()
+    g.signatures = collections.Counter()
+    g.done_states = 0
+    deadline = time.time() + budget_s if budget_s else None
+    w0 = build(params)
+    seen = {canon_digest(w0.canon())}
+    for v in w0.step_violations():
+        g.violations.append((v, params, [], []))
+    w0.close()
+    frontier = [()]
+    depth = 0
+    while frontier:
+        if max_depth is not None and depth >= max_depth:
+            g.closed = False
+            break
+        if (deadline and time.time() > deadline) or (max_states and len(seen) >= max_states):
+            g.closed = False
+            break
+        jobs = [(build_ref, params, h) for h in frontier]
+        if parallel and nworkers() > 1 and len(jobs) > 4:
+            results = list(pool().imap_unordered(_expand, jobs, chunksize=max(1, len(jobs) // (nworkers() * 4))))
+        else:
+            results = [_expand(j) for j in jobs]
+        results.sort(key=lambda r: r[1])
+        nxt = []
+        for kind, hist, res in results:
+            if kind != "ok":
+                raise InternalError(res)
+            g.replays += len(res)
+            for c, label, dig, viol, done, sig in res:
+                g.transitions += 1
+                for v in viol:
+                    if len(g.violations) < 200:
+                        g.violations.append((v, params, list(hist) + [c], label))
+                if dig in seen:
+                    continue
+                seen.add(dig)
+                g.max_depth = max(g.max_depth, len(hist) + 1)
+                if done:
+                    g.done_states += 1
+                    if sig is not None:
+                        g.signatures[_sig_key(sig)] += 1
+                if len(g.samples) < 4 and len(hist) >= 3:
+                    g.samples.append({"history": list(hist) + [c], "last": _jsonable(label)})
+                if not done and not viol:
+                    nxt.append(hist + (c,))
+        frontier = nxt
+        depth += 1
+    g.states = len(seen)
+    return g
